@@ -20,6 +20,8 @@ def global_name(name, ex):
         return Func("builtin", name)
     if name in MODULES:
         return Module(MODULES[name])
+    if name in ("isclose", "isinf", "sqrt", "floor", "ceil", "log2"):
+        return Func("builtin", "math." + name)
     if name in ("True", "False", "None"):
         return {"True": True, "False": False, "None": None}[name]
     if ex.book.has_class(name):
@@ -68,12 +70,14 @@ def value_attr(ex, o, attr, node):
 
 def pow2(ex, k, node):
     ex.safety("pow2-exponent-nonneg", V.to_z3(k) >= 0, node)
+    if isinstance(k, int):
+        return 2 ** k
     t = POW2(V.to_z3(k))
-    j = z3.Int("p2j")
-    ax = z3.ForAll([j], z3.Implies(j >= 0, z3.And(POW2(j + 1) == 2 * POW2(j), POW2(j) >= 1)), patterns=[POW2(j)])
-    if not any(p.eq(ax) for p in ex.pc):
-        ex.assume(POW2(0) == 1)
-        ex.assume(ax)
+    # quantifier-free instances of  pow2(0)=1, pow2(j+1)=2*pow2(j), pow2(j)>=1  (the recursive axiom itself is only added when the
+    # sidecar asks for it: quantifiers make refutations come back as `unknown`)
+    ex.assume(t >= 1, "def:pow2")
+    ex.assume(z3.Implies(V.to_z3(k) == 0, t == 1), "def:pow2")
+    ex.assume(z3.Implies(V.to_z3(k) >= 1, z3.And(t == 2 * POW2(V.to_z3(k) - 1), POW2(V.to_z3(k) - 1) >= 1)), "def:pow2")
     return t
 
 
